@@ -59,7 +59,7 @@ def cases(shard, rnd):
         for legacy in (False, True):
             for n in sorted(pts):
                 for pos in ('top', 'array', 'table', 'nested3', 'array12',
-                            'deep-array12'):
+                            'deep-array12', 'xkey', 'xkey-nested'):
                     yield {'t': 'int', 'n': n, 'legacy': legacy, 'pos': pos}
         for _ in range(shard['n_random']):
             k = rnd.random()
@@ -85,9 +85,10 @@ def cases(shard, rnd):
             for _ in range(200):
                 k = rnd.random()
                 steps.append('on' if k < 0.2 else 'off' if k < 0.4 else
-                             'noarg' if k < 0.55 else 'assign-on'
-                             if k < 0.65 else 'assign-off' if k < 0.75
-                             else 'probe')
+                             'noarg' if k < 0.5 else 'assign-on'
+                             if k < 0.58 else 'assign-off' if k < 0.66
+                             else 'truthy' if k < 0.74 else 'falsy'
+                             if k < 0.8 else 'probe')
             yield {'t': 'toggle', 'steps': steps,
                    'probes': [rnd.choice([200, 40000, 65535, 3000000000,
                                           4294967295, -5, 2**40])
@@ -157,6 +158,10 @@ def _check_top(n, legacy, rec, case, fn_name):
 def _wrap(n, pos):
     if pos == 'array':
         return [n]
+    if pos == 'xkey':             # argument names as brokers use them
+        return {'x-message-ttl': n, 'x-expires': n, 'count': n}
+    if pos == 'xkey-nested':
+        return {'x-death': [{'x-max-length': n, 'time': 0}]}
     if pos == 'array12':          # a long array of plain ints
         return [1, 2, 3, 4, 5, 6, 7, 8, 9, n, 10, n]
     if pos == 'deep-array12':
@@ -226,7 +231,7 @@ def run_case(case, rec):
                               observed=common.hexs(data))
                 return
             mine = [(tg, val) for tg, val in tr.int_tags if val == n]
-            want = {'nested3': 2, 'array12': 2}.get(pos, 1)
+            want = {'nested3': 2, 'array12': 2, 'xkey': 3}.get(pos, 1)
             others_ok = all(tg == expected(val, legacy)[0]
                             for tg, val in tr.int_tags)
             ok = len(mine) >= want and others_ok and all(
@@ -284,6 +289,21 @@ def _toggle(case, rec, encode):
         elif step == 'noarg':
             encode.support_deprecated_rabbitmq()
             shadow = True
+        elif step == 'truthy':
+            # "switched on" with a value that is true but is not True
+            v = [1, 2, 'yes', '1', (0, 9), [0]][i % 6]
+            if i % 2:
+                encode.support_deprecated_rabbitmq(v)
+            else:
+                encode.DEPRECATED_RABBITMQ_SUPPORT = v
+            shadow = True
+        elif step == 'falsy':
+            v = [0, '', None, (), 0.0][i % 5]
+            if i % 2:
+                encode.support_deprecated_rabbitmq(v)
+            else:
+                encode.DEPRECATED_RABBITMQ_SUPPORT = v
+            shadow = False
         elif step == 'assign-on':
             encode.DEPRECATED_RABBITMQ_SUPPORT = True
             shadow = True
@@ -316,14 +336,15 @@ def gates(m, tier):
         for tg in want:
             if '%s:%s' % (mode, tg) not in tags:
                 out.append('tag %s never observed in %s mode' % (tg, mode))
-    for f in ('on', 'off', 'noarg', 'probe', 'assign-on', 'assign-off'):
+    for f in ('on', 'off', 'noarg', 'probe', 'assign-on', 'assign-off',
+              'truthy', 'falsy'):
         if f not in m.sets.get('toggle_forms', ()):
             out.append('toggle form %s never used' % f)
     for mode in ('normal', 'legacy'):
         if mode not in m.sets.get('refused', ()):
             out.append('no out-of-range integer refused in %s mode' % mode)
         for pos in ('array', 'table', 'nested3', 'array12',
-                    'deep-array12'):
+                    'deep-array12', 'xkey', 'xkey-nested'):
             if '%s:%s' % (mode, pos) not in m.sets.get('positions', ()):
                 out.append('position %s never checked in %s mode'
                            % (pos, mode))
